@@ -113,8 +113,8 @@ TABLE = {
     r"^client::Client::get\|result-unwrap\|unwrap\|<=Builder::body$": ("by-construction", "Request::builder() with only a uri and method GET: building cannot fail for a Uri value"),
     r"^service::host::set_host_header\|option-unwrap\|expect\|authority implies host\|<=Uri::host$": ("guarded", "reached only after uri.host() was checked to be present", _host_guard),
     r"^service::host::set_host_header\|result-unwrap\|expect\|uri host is valid header value\|<=\?$": ("by-construction", "every byte http::Uri accepts in a host (and a decimal port) is a legal header-value byte"),
-    r"^service::http::http1::authority_form\|result-unwrap\|expect\|authority is valid\|<=Uri::from_parts$": ("by-construction", "Uri::from_parts with only an authority taken from a valid Uri is authority-form"),
-    r"^service::http::http1::origin_form\|result-unwrap\|expect\|path is valid uri\|<=Uri::from_parts$": ("by-construction", "Uri::from_parts with only the path_and_query of a valid Uri is origin-form"),
+    r"^service::http::http1::(authority_form|check_http1_request)\|result-unwrap\|expect\|authority is valid\|<=Uri::from_parts$": ("by-construction", "Uri::from_parts with only an authority taken from a valid Uri is authority-form"),
+    r"^service::http::http1::(origin_form|check_http1_request)\|result-unwrap\|expect\|path is valid uri\|<=Uri::from_parts$": ("by-construction", "Uri::from_parts with only the path_and_query of a valid Uri is origin-form"),
     r"^service::http::http1::origin_form\|panic\|panic\|assertion failed: Uri::default\(\)": ("constant-input", "debug_assert on a constant expression"),
     r"^<&str as helpers::IntoRequestParts>::into_request_parts\|result-unwrap\|unwrap\|<=Builder::body$|^<http::Uri as helpers::IntoRequestParts>::into_request_parts\|result-unwrap\|unwrap\|<=Builder::body$": ("by-construction", "test/convenience helper for building request parts from a caller-supplied address (TransportExt::oneshot); a malformed &str is the caller's literal, the http::Uri form cannot fail"),
     r"^polled_span\|option-unwrap\|expect\|Missing ID; this is a bug\|<=Span::id$": ("by-construction", "tracing span bookkeeping"),
